@@ -414,3 +414,158 @@ func (c *Ctx) checkNesting() {
 		fmt.Sprintf("only %d re-entering call(s) in Run and %d compiler site(s) found: the macro expansion and include sites confirmed by reading are not recognised any more", n, nb))
 	_ = strings.Join
 }
+
+// C01-SPINE: no Go recursion along the spine of a list.
+//
+// A list is a chain of pairs; its length is whatever the input says (a data
+// file with a few million atoms on one level is an ordinary data file). A
+// routine that handles the first pair and calls itself for the rest uses one
+// Go stack frame per element: depth = length, and beyond the Go stack limit
+// the process dies with a fatal error. The nesting of an expression is
+// bounded by what a person writes; the length of a list is not.
+//
+// The rule looks at every call of a function to itself and reports it when
+// it walks the spine:
+//   - an argument of the call is the Tail of the pair the function was given
+//     (the pair derives from a parameter: the Tail of an entry of a hash
+//     table is the value stored under a key, which is nesting, not length),
+//   - an argument is the rest x[1:] of a slice parameter and the result
+//     becomes the tail of a pair, or
+//   - the result of the call becomes the Tail of a pair made in this
+//     activation (stored into the Tail field, or handed to Cons as the tail).
+//
+// It does not decide recursion on the nesting depth (the head of a pair, the
+// elements of an array), nor indirect recursion through other functions.
+func (c *Ctx) checkListSpine() {
+	pairT := c.named("SexpPair")
+	tailF := c.field("SexpPair", "Tail")
+	cons := c.fn("Cons")
+	if pairT == nil || tailF == nil {
+		c.undecided("C01-SPINE", "package", "list type", token.NoPos, "SexpPair.Tail not found")
+		return
+	}
+	var fromParam func(v ssa.Value, depth int) bool
+	fromParam = func(v ssa.Value, depth int) bool {
+		if depth > 6 {
+			return false
+		}
+		switch x := v.(type) {
+		case *ssa.Parameter:
+			return true
+		case *ssa.TypeAssert:
+			return fromParam(x.X, depth+1)
+		case *ssa.Extract:
+			return fromParam(x.Tuple, depth+1)
+		case *ssa.ChangeInterface:
+			return fromParam(x.X, depth+1)
+		case *ssa.Phi:
+			for _, e := range x.Edges {
+				if fromParam(e, depth+1) {
+					return true
+				}
+			}
+		}
+		return false
+	}
+	isTailRead := func(v ssa.Value) bool {
+		for depth := 0; depth < 4; depth++ {
+			switch x := v.(type) {
+			case *ssa.UnOp:
+				if x.Op == token.MUL {
+					if fa, ok := x.X.(*ssa.FieldAddr); ok && faField(fa) == tailF {
+						return fromParam(fa.X, 0)
+					}
+				}
+				return false
+			case *ssa.Field:
+				return fField(x) == tailF && fromParam(x.X, 0)
+			case *ssa.TypeAssert:
+				v = x.X
+			case *ssa.Extract:
+				v = x.Tuple
+			case *ssa.MakeInterface:
+				v = x.X
+			case *ssa.ChangeInterface:
+				v = x.X
+			default:
+				return false
+			}
+		}
+		return false
+	}
+	becomesTail := func(v ssa.Value) bool {
+		seen := map[ssa.Value]bool{}
+		var walk func(v ssa.Value, depth int) bool
+		walk = func(v ssa.Value, depth int) bool {
+			if v == nil || seen[v] || depth > 5 || v.Referrers() == nil {
+				return false
+			}
+			seen[v] = true
+			for _, r := range *v.Referrers() {
+				switch x := r.(type) {
+				case *ssa.Store:
+					if fa, ok := x.Addr.(*ssa.FieldAddr); ok && faField(fa) == tailF && x.Val == v {
+						return true
+					}
+				case *ssa.Extract:
+					if walk(x, depth+1) {
+						return true
+					}
+				case *ssa.MakeInterface:
+					if walk(x, depth+1) {
+						return true
+					}
+				case *ssa.ChangeInterface:
+					if walk(x, depth+1) {
+						return true
+					}
+				case *ssa.Phi:
+					if walk(x, depth+1) {
+						return true
+					}
+				case *ssa.Call:
+					if cons != nil && x.Call.StaticCallee() == cons && len(x.Call.Args) == 2 && x.Call.Args[1] == v {
+						return true
+					}
+				}
+			}
+			return false
+		}
+		return walk(v, 0)
+	}
+	n, selfCalls := 0, 0
+	for _, f := range c.zygoFuncs() {
+		eachInstr(f, func(b *ssa.BasicBlock, i int, in ssa.Instruction) {
+			call, ok := in.(*ssa.Call)
+			if !ok || call.Call.StaticCallee() != f {
+				return
+			}
+			selfCalls++
+			why := ""
+			for ai, a := range call.Call.Args {
+				if isTailRead(a) {
+					why = "it is called again with the Tail of the pair it was given"
+				}
+				if sl, ok := a.(*ssa.Slice); ok && sl.Low != nil && ai < len(f.Params) {
+					if p, ok := sl.X.(*ssa.Parameter); ok && p == f.Params[ai] {
+						if k, ok := constIntOf(sl.Low); ok && k >= 1 && becomesTail(call) {
+							why = "it is called again with the rest of the slice it was given, and the result becomes the tail of a pair"
+						}
+					}
+				}
+			}
+			if why == "" && becomesTail(call) {
+				why = "the result of calling itself becomes the Tail of the pair it makes"
+			}
+			if why == "" {
+				return
+			}
+			n++
+			c.bad("C01-SPINE", fnName(f), "calls itself for the rest of the list", call.Pos(),
+				"recursion along the spine of a list: "+why+" -- one Go stack frame per element, so the length of a list in the input is the depth of the Go stack; a long flat list (a data file of a few million atoms) ends in a fatal stack overflow that kills the host")
+		})
+	}
+	c.check(selfCalls >= 10, "C01-SPINE", "package", "self-recursive calls examined", token.NoPos,
+		fmt.Sprintf("%d calls of a function to itself examined, %d of them walk the spine of a list", selfCalls, n),
+		fmt.Sprintf("only %d self-recursive calls found", selfCalls))
+}
